@@ -295,8 +295,28 @@ def cases_C04(tier, seed):
     return cases
 
 
+def big_layouts(tier):
+    """sampled layouts of the larger capacities the harness has (8, 16; thorough: 64 too): code that works in
+    blocks (of 8, 16, ...) or switches strategy at a threshold behaves like the plain loop on every capacity
+    of the exhaustive small scope (seeded change C06-H: clones counted once per block of eight)"""
+    for n in ((8, 16, 64) if tier == "thorough" else (8, 16)):
+        for st in sorted({0, n // 3, n - 1}):
+            for sz in sorted({0, 1, n // 2, n - 1, n}):
+                yield n, st, sz
+
+
 def cases_C05(tier, seed):
     cases = []
+    for n, st, sz in big_layouts(tier):
+        pre = layout_prefix(n, st, sz)
+        ops = ["clear", "fill 9", "drop", "clone_from 1 5 6", f"truncate_back {sz // 2}", f"truncate_front {sz // 3}",
+               f"extend_from_slice {n}", f"extend_from_slice {n + 1}", f"extend_from_slice {n // 2 + 1}", "into_iter F"]
+        if sz >= 2:
+            ops += [f"drain i1 x{sz} - drop", f"drain i0 x{sz - 1} F drop", f"drain i{sz // 3} x{sz - sz // 4} B drop"]
+        ks = range(1, sz + 2) if n <= 16 else sorted({1, 2, 7, 8, 9, 16, 17, sz // 2, sz - 1, sz, sz + 1} - {0, -1})
+        for op in ops:
+            for k in ks:
+                cases.append(pre + [f"{op} !drop={k}", "len", "push_back 77", "pop_front", "drop"])
     for n, st, sz in all_layouts(ns_for(tier, quick=(1, 2, 3, 4), thorough=(1, 2, 3, 4, 5))):
         pre = layout_prefix(n, st, sz)
         ops = ["clear", "fill 9", "fill_with", "drop", f"clone_from 1 5 6"]
@@ -320,6 +340,29 @@ def cases_C05(tier, seed):
 
 def cases_C06(tier, seed):
     cases = []
+    for n, st, sz in big_layouts(tier):
+        pre = layout_prefix(n, st, sz)
+        tail = ["len", "push_back 77", "pop_front", "drop"]
+        free = n - sz
+        for m in sorted({1, 7, 8, 9, 15, 16, 17, free, free + 1, n, n + 1, 2 * n + 1} - {0}):
+            top = min(m, n)
+            ks = range(1, top + 1) if n <= 16 else sorted({1, 2, 7, 8, 9, 10, 15, 16, 17, 24, 33, top // 2, top - 1, top} - {0, -1})
+            for k in ks:
+                if k <= top:
+                    cases.append(pre + [f"extend_from_slice {m} !clone={k}"] + tail)
+            for k in sorted({1, 2, 8, 9, m, m + 1}):
+                if k <= m + 1:
+                    cases.append(pre + [f"extend {m} !next={k}"] + tail)
+        for k in sorted({1, 2, 7, 8, 9, 10, n // 2, n - 1, n}):
+            if k <= n:
+                cases.append(pre + [f"fill 9 !clone={k}"] + tail)
+                cases.append(pre + [f"fill_spare 9 !clone={k}"] + tail)
+                cases.append(pre + [f"fill_with !call={k}"] + tail)
+                cases.append(pre + [f"fill_spare_with !call={k}"] + tail)
+            if 1 <= k <= sz:
+                cases.append(pre + [f"clone !clone={k}"] + tail)
+                cases.append(pre + [f"to_vec !clone={k}"] + tail)
+                cases.append(pre + ["clone_from 1 5 5 5 " + f"!clone={k}"] + tail)
     for n, st, sz in all_layouts(ns_for(tier, quick=(1, 2, 3, 4), thorough=(1, 2, 3, 4, 5))):
         pre = layout_prefix(n, st, sz)
         tail = ["len", "push_back 77", "pop_front", "drop"]
